@@ -37,12 +37,14 @@ def names_case(draw):
     multi = draw(st.booleans())
     if not multi:
         n = draw(st.integers(1, 12))
-        return {"multi": False, "names": [f"s{draw(st.integers(0, 999))}_{i}" for i in range(n)], "form": draw(st.sampled_from(["table", "list", "array"]))}
+        # names as typed into a spreadsheet: now and then with an inner, leading or trailing blank
+        deco = st.sampled_from(["{}", "{}", "{}", "{}", "{} ", " {}", "ch {}"])
+        return {"multi": False, "names": [draw(deco).format(f"s{draw(st.integers(0, 999))}_{i}") for i in range(n)], "form": draw(st.sampled_from(["table", "list", "array"]))}
     lay = draw(layout(2, 3, 2, 3, nrov_min=1))
     k = lay["nref"]
     setups = []
     for s in lay["setups"]:
-        setups.append([(f"r{g}_{len(setups)}" if g < k else f"m{g}") for g in s["chan"]])
+        setups.append([(f"r{g}_{len(setups)}" if g < k else (f"m{g} " if g % 4 == 3 else f"m{g}")) for g in s["chan"]])
     return {"multi": True, "layout": lay, "setup_names": setups, "form": draw(st.sampled_from(["table", "listoflists"])), "host": draw(st.sampled_from(["preger", "poser"]))}
 
 
@@ -331,9 +333,9 @@ def judge_geo2(case):
 # single-fault corruptions
 # ---------------------------------------------------------------------------
 GEO1_FAULTS = ["drop:sensors names", "drop:sensors coordinates", "drop:sensors directions", "unknown-sheet", "coord-2cols", "coord-4cols", "dir-shape-rows", "dir-shape-cols",
-               "bgnodes-cols", "bglines-cols", "bgsurf-cols", "index-mismatch", "name-missing"]
+               "bgnodes-cols", "bglines-cols", "bgsurf-cols", "bglines-cols-nonodes", "bgsurf-cols-nonodes", "index-mismatch", "name-missing"]
 GEO2_FAULTS = ["drop:sensors names", "drop:points coordinates", "drop:mapping", "unknown-sheet", "points-2cols", "mapping-shape", "sign-shape", "bgnodes-cols", "bglines-cols",
-               "bgsurf-cols", "name-missing-from-mapping", "cstr-unknown-column", "cstr-unused-row"]
+               "bgsurf-cols", "bglines-cols-nonodes", "bgsurf-cols-nonodes", "name-missing-from-mapping", "cstr-unknown-column", "cstr-unused-row"]
 
 
 def _corrupt1(d, names, fault, rng):
@@ -360,6 +362,13 @@ def _corrupt1(d, names, fault, rng):
     elif fault == "bgsurf-cols":
         d["BG nodes"] = pd.DataFrame([[0.0, 1.0, 0.0], [1.0, 2.0, 0.0]], index=[1, 2])
         d["BG surfaces"] = pd.DataFrame([[1, 2]], index=[1])
+    elif fault in ("bglines-cols-nonodes", "bgsurf-cols-nonodes"):
+        # the optional background-nodes sheet is left out, a lines / surfaces sheet with the wrong column count is given
+        d.pop("BG nodes", None)
+        if fault.startswith("bglines"):
+            d["BG lines"] = pd.DataFrame([[1, 2, 1]], index=[1])
+        else:
+            d["BG surfaces"] = pd.DataFrame([[1, 2]], index=[1])
     elif fault == "index-mismatch":
         idx = list(d["sensors directions"].index)
         idx[0] = str(idx[0]) + "_x"
@@ -387,6 +396,12 @@ def _corrupt2(d, names, fault, rng):
         d["sensors sign"] = pd.DataFrame(np.ones((len(d["points coordinates"]) + 1, 3)), columns=XYZ)
     elif fault == "bgnodes-cols":
         d["BG nodes"] = pd.DataFrame([[0.0, 1.0], [1.0, 2.0]], index=[1, 2])
+    elif fault in ("bglines-cols-nonodes", "bgsurf-cols-nonodes"):
+        d.pop("BG nodes", None)
+        if fault.startswith("bglines"):
+            d["BG lines"] = pd.DataFrame([[1, 2, 1]], index=[1])
+        else:
+            d["BG surfaces"] = pd.DataFrame([[1, 2]], index=[1])
     elif fault == "bglines-cols":
         d["BG nodes"] = pd.DataFrame([[0.0, 1.0, 0.0], [1.0, 2.0, 0.0]], index=[1, 2])
         d["BG lines"] = pd.DataFrame([[1, 2, 1]], index=[1])
